@@ -163,12 +163,42 @@ theorem insert_counts (n m : Nat) (fuel a pos b : Nat) (s : St) (r : Nat) (s' : 
   ⟨(insertObj_spec n m fuel a pos b s r s' h hm ga gb).2, (insertObj_spec n m fuel a pos b s r s' h hm ga gb).1.1⟩
 
 /-- `insert(a, pos, b, memo)` of two arrays the memo has not seen: the rows of `a` with the rows of `b`
-spliced in at `pos` (= appended, by `insert_at_end_appends`, for a field of a rectangular table) -/
+spliced in at `pos` (= appended, by `insert_at_end_appends`, for a field of a rectangular table); the rows of a
+time `b` of another scale / format are the converted ones (`convRows`, see `insert_converts_each_epoch`); the
+result keeps kind, time scale and format of `a` -/
 theorem insert_splices_rows (fuel a pos b : Nat) (s : St) (r : Nat) (s' : St)
     (h : insertObj (fuel + 1) a pos b s = .ok (r, s')) (ha : s.find a = none) (hb : s.find b = none) :
     ∃ oa ob orr, s.heap[a]? = some oa ∧ s.heap[b]? = some ob ∧ s'.heap[r]? = some orr ∧
-      orr.rows = insertAt oa.rows pos ob.rows ∧ orr.kind = oa.kind :=
+      orr.rows = insertAt oa.rows pos (convRows s.conv oa.tag ob) ∧ orr.kind = oa.kind ∧ orr.tag = oa.tag :=
   insertObj_rows fuel a pos b s r s' h ha hb
+
+/-- same scale and format (or no time at all, or the padding array): the rows of `b` go in unchanged -/
+theorem insert_same_format_keeps_rows (cv : Conv) (t : String) (ob : Obj) (h : ob.tag = t ∨ ob.tag = "") :
+    convRows cv t ob = ob.rows := by
+  unfold convRows needsConv
+  rcases h with h | h <;> simp [h]
+
+/-- another scale or format: epoch `k` of the spliced rows is the conversion **of epoch `k` of `b` itself** (the table
+is the function of the Time classes, applied row by row) — in particular two arrays `b`, `b'` with different epochs
+never receive each other's rows, and the number of epochs is unchanged -/
+theorem insert_converts_each_epoch (cv : Conv) (t : String) (ob : Obj) (hn : needsConv t ob = true)
+    (hc : convertible cv t ob = true) (k : Nat) (r : Row) (hr : ob.rows[k]? = some r) :
+    ∃ r', cv.lookup (ob.tag, t, r) = some r' ∧ (convRows cv t ob)[k]? = some r' ∧
+      (convRows cv t ob).length = ob.rows.length := by
+  have hall : ∀ x ∈ ob.rows, (cv.lookup (ob.tag, t, x)).isSome = true := by
+    have := hc
+    simp only [convertible, hn, Bool.not_true, Bool.false_or, Bool.and_eq_true, List.all_eq_true] at this
+    exact this.2
+  have hmem : r ∈ ob.rows := List.mem_of_getElem? hr
+  obtain ⟨r', hr'⟩ := Option.isSome_iff_exists.mp (hall r hmem)
+  refine ⟨r', hr', ?_, convRows_length cv t ob⟩
+  simp [convRows, hn, hr, hr']
+
+/-- the sort key of a time field is the VALUE the field holds (third component of a row, after jd1 and jd2), not a
+number derived from the Julian date: epochs that are different in the field have different keys -/
+theorem sort_key_is_field_value (j1 j2 v : Scalar) (rest : Row) (hv : v ≠ .nan) :
+    timeKey (j1 :: j2 :: v :: rest) = v := by
+  cases v <;> simp_all [timeKey]
 
 /-- extending a float field: the other field's rows, each column multiplied by the unit factor
 `Unit(other unit, own unit)` of that column, spliced in at the field's `num_obs` ("unit conversion for
@@ -370,13 +400,13 @@ def exE : DS := { numObs := 2, fields := [.leaf "k" .text 2 2 none 3, .coll "g" 
 /-- the hypotheses of `difference_pairs_by_key` / `difference_rectangular` are satisfiable: keys `a`, `b` in
 ascending order, paired with the first rows carrying them (0, 1 of self; 1, 0 of other); the nested field
 `g.x` (heap object 8) is `1 − 20, 2 − 10` -/
-example : (dsDifference [] exHeap exD exE (some ["k"]) false false).toOption.map
+example : (dsDifference {} exHeap exD exE (some ["k"]) false false).toOption.map
       (fun p => (p.2.numObs, names p.2.fields, (p.1.getD 8 default).rows, (p.1.getD 9 default).rows))
     = some (2, ["g", "k"], [[.num (-19)], [.num (-8)]], [[.txt "a"], [.txt "b"]]) := by decide +kernel
 /-- by position: unequal lengths fail, equal lengths pair row `k` with row `k` -/
-example : dsDifference [] exHeap exD exE none false false = .error .value :=
+example : dsDifference {} exHeap exD exE none false false = .error .value :=
   difference_unequal_lengths _ _ _ _ _ _ (by decide)
-example : (dsDifference [] exHeap exD exD none true false).toOption.map
+example : (dsDifference {} exHeap exD exD none true false).toOption.map
       (fun p => (p.2.numObs, names p.2.fields, (p.1.getD 8 default).rows))
     = some (3, ["k_self", "g"], [[.num 0], [.num 0], [.num 0]]) := by decide +kernel
 example : intersectKeys [[.num 1], [.num 1], [.num 2]] [[.num 2], [.num 3], [.num 1]] = [(0, 2), (2, 0)] := by
@@ -384,11 +414,33 @@ example : intersectKeys [[.num 1], [.num 1], [.num 2]] [[.num 2], [.num 3], [.nu
 example : intersectKeys [[.txt "a"]] [[.txt "b"]] = [] := by decide +kernel
 /-- the list-of-records `extend`: `x` (bit) gets other's `x` (byte, factor 8) appended, `y` only in other gets two
 NaN in front, `z` only in self one NaN at the end -/
-example : (aExtendFields [("byte", "bit", 8)] 2 1
+example : (aExtendFields { table := [("byte", "bit", 8)] } 2 1
     [.leaf "x" .float 1 1 (some ["bit"]) 3 [[.num 1], [.num 2]], .leaf "z" .float 1 1 none 3 [[.num 5], [.num 6]]]
     [.leaf "y" .float 1 1 none 2 [[.num 7]], .leaf "x" .float 1 1 (some ["byte"]) 1 [[.num 3]]]).map aLeaves.aLeavesL =
     some [("x", [[.num 1], [.num 2], [.num 24]]), ("z", [[.num 5], [.num 6], [.nan]]),
           ("y", [[.nan], [.nan], [.num 7]])] := by decide +kernel
+
+def exUtc : Obj :=
+  { kind := .time, ndim := 1, cols := 1, rows := [[.num 2451544.5, .num 0, .num 51544], [.num 2451545.5, .num 0, .num 51545]],
+    tag := "utc/mjd" }
+def exConv : Conv :=
+  [(("utc/mjd", "gps/jd", [.num 2451544.5, .num 0, .num 51544]), [.num 2451544.5, .num (1/6400), .num 2451544.50015625]),
+   (("utc/mjd", "gps/jd", [.num 2451545.5, .num 0, .num 51545]), [.num 2451545.5, .num (1/6400), .num 2451545.50015625])]
+
+/-- the hypotheses of `insert_converts_each_epoch` are satisfiable: a UTC/mjd array spliced into a GPS/jd array (13.5 s
+= 1/6400 d later, value shown as a Julian date) -/
+example : needsConv "gps/jd" exUtc = true := by decide +kernel
+example : convertible exConv "gps/jd" exUtc = true := by
+  simp only [convertible, exUtc, exConv, needsConv]
+  decide +kernel
+example : convRows exConv "gps/jd" exUtc =
+      [[.num 2451544.5, .num (1/6400), .num 2451544.50015625], [.num 2451545.5, .num (1/6400), .num 2451545.50015625]] := by
+  decide +kernel
+/-- same scale and format: nothing is converted -/
+example : convRows exConv "utc/mjd" exUtc = exUtc.rows := insert_same_format_keeps_rows _ _ _ (Or.inl rfl)
+/-- two epochs some microseconds apart (values in mjd) keep different sort keys although `jd1 + jd2` rounds to one float -/
+example : timeKey [.num 2458849.5, .num (1/2), .num 58849.5000000001] = .num 58849.5000000001 :=
+  sort_key_is_field_value _ _ _ _ (by decide)
 
 /-- does the history run? (executable) -/
 def runs : W → List Op → Bool
@@ -432,6 +484,9 @@ end Midgard.Props.C09
 #print axioms Midgard.Props.C09.pad_front
 #print axioms Midgard.Props.C09.insert_counts
 #print axioms Midgard.Props.C09.insert_splices_rows
+#print axioms Midgard.Props.C09.insert_same_format_keeps_rows
+#print axioms Midgard.Props.C09.insert_converts_each_epoch
+#print axioms Midgard.Props.C09.sort_key_is_field_value
 #print axioms Midgard.Props.C09.extend_float_converts_units
 #print axioms Midgard.Props.C09.sort_is_stable_permutation
 #print axioms Midgard.Props.C09.sort_refines
